@@ -1,6 +1,7 @@
-"""./check selftest [name ...]: apply each seeded change of /verif/seeded to /repo (git apply), run the quick check of
-the property it breaks, require exit 1 with a VIOLATION line whose replay reproduces, and undo the change
-(git checkout -- .). Also runs the oracle self-tests. /repo must be clean."""
+"""./check selftest [name ...]: apply each seeded change of /verif/seeded to a scratch worktree of /repo (under
+/root/scratch, cargo `paths` override, own target directory), run the quick check of the property it breaks and
+require exit 1 with VIOLATION lines; for the benign changes (kind = benign) require exit 0 on every relevant
+property. Also runs the oracle self-tests. Takes about an hour for all seeds."""
 import os, sys, json, subprocess, glob
 
 ROOT = os.path.dirname(os.path.dirname(os.path.abspath(__file__)))
@@ -23,9 +24,12 @@ def main(names, check):
     missed = []
     for s in seeds:
         meta = json.load(open(os.path.join(ROOT, "seeded", s, "meta.json")))
-        props = meta.get("selftest_properties") or [meta["breaks_property"]]
-        res = seed.run(s, props, "quick")
-        if not all(v == "DETECTED" for v in res.values()):
+        benign = meta.get("kind") == "benign"
+        props = meta.get("relevant_properties") if benign else (meta.get("selftest_properties") or [meta["breaks_property"]])
+        # scratch worktree of /repo + cargo paths override: /repo itself is not touched
+        res = seed.run_scratch(s, props, "quick")
+        want = "MISSED" if benign else "DETECTED"   # a benign change must leave every check silent
+        if not all(v == want for v in res.values()):
             missed.append(s)
-    print("selftest: %d seeded changes, %d missed %s" % (len(seeds), len(missed), missed))
+    print("selftest: %d seeded changes, %d with an unexpected verdict %s" % (len(seeds), len(missed), missed))
     return 1 if (missed or rc) else 0
